@@ -29,6 +29,14 @@ def _tcp_header_offset(t):
     k = T.fold_int(t)
     if k is not None:
         return k == 40
+    # nothing may cap the offset from above (`.min(20)` reads option bytes as ports); a lower bound of 20 is harmless
+    for x in T.walk(t):
+        if x[0] == "call":
+            last = x[1].rsplit("::", 1)[-1]
+            if last in ("min", "clamp", "saturating_sub", "wrapping_sub", "rem", "checked_rem") or (last == "max" and not any(T.fold_int(a) == 20 for a in x[2])):
+                return False
+        if x[0] == "binop" and x[1].replace("WithOverflow", "") in ("Sub", "Rem", "Div", "Shr"):
+            return False
     masks = [T.fold_int(x[3]) for x in T.walk(t) if x[0] == "binop" and x[1] == "BitAnd"]
     byte0 = any(x[0] == "index" and T.fold_int(x[2]) == 0 for x in T.walk(t))
     times4 = any((x[0] == "call" and x[1].endswith(("saturating_mul", "wrapping_mul", "checked_mul")) and any(T.fold_int(a) == 4 for a in x[2])) or
